@@ -13,6 +13,7 @@ import (
 	"github.com/kardiachain/go-kardia/lib/common"
 	kcons "github.com/kardiachain/go-kardia/proto/kardiachain/consensus"
 	kbits "github.com/kardiachain/go-kardia/proto/kardiachain/libs/bits"
+	prototx "github.com/kardiachain/go-kardia/proto/kardiachain/txpool"
 	kproto "github.com/kardiachain/go-kardia/proto/kardiachain/types"
 	"github.com/kardiachain/go-kardia/types"
 
@@ -324,5 +325,42 @@ func TestKnownProposalPOLRound(t *testing.T) {
 	}
 	if cs.Proposal != nil {
 		ev.Violation(t, "proposal.polround-not-before-round.accepted", text(), "a proposal with POLRound %d >= Round %d was accepted", p.POLRound, p.Round)
+	}
+}
+
+// ---------------------------------------------------------------- tx fetch callback for a peer that has left
+
+const keyFetchGone = "panic:mainchain/tx_pool.(*peer).RequestTxs"
+
+// TestKnownTxFetchPeerGone: the transaction fetcher retrieves announced hashes on goroutines of its own through the
+// callback the reactor gave it (txR.fetchTx) and expects an error "in case of a request failure (e.g. peer
+// disconnected)". A peer that announces hashes and leaves before that goroutine runs makes the callback dereference a
+// nil peer - on a goroutine without recover. The callback is called here directly (under recover) with the id of a peer
+// that has been removed, which is what the fetcher does in that interleaving.
+func TestKnownTxFetchPeerGone(t *testing.T) {
+	w := getTxWorld(t)
+	defer closeTxWorld()
+	peer := newPeer()
+	_ = w.sw.VerifC18AddPeer(peer)
+	w.txR.AddPeer(peer)
+	h := common.BytesToHash([]byte("announced"))
+	w.txR.Receive(0x30, peer, encTx(&prototx.PooledTransactionHashes{Hashes: [][]byte{h.Bytes()}}))
+	w.sw.StopPeerGracefully(peer) // the peer disconnects: RemovePeer -> peers.Unregister + fetcher.Drop
+	var err error
+	r := guarded(func() { err = w.txR.VerifC18FetchTx(string(peer.ID()), []common.Hash{h}) })
+	var c collector
+	text := func() string { return "txpool fetch callback for a removed peer" }
+	oracle(t, c.report, "txR.fetchTx (called by TxFetcher.scheduleFetches on its own goroutine)", "alloc.txpool.fetch", r, 32, w.probes, text)
+	ev.Case(true, text(), "directed", "directed:tx-fetch-peer-gone")
+	ev.Sample("directed:tx-fetch-peer-gone", fmt.Sprintf("announce one hash, disconnect, fetch callback runs afterwards: err=%v keys=%v", err, c.keys))
+	if ev.Known(keyFetchGone) {
+		ev.KnownReproduced(keyFetchGone, c.has(keyFetchGone))
+		return
+	}
+	for i, k := range c.keys {
+		ev.Violation(t, k, text(), "%s", c.msgs[i])
+	}
+	if err == nil && len(c.keys) == 0 {
+		ev.Violation(t, "txpool.fetch-callback.no-error-for-gone-peer", text(), "fetchTx returned nil for a peer that has been removed; the fetcher then waits for a delivery that cannot come")
 	}
 }
